@@ -2,7 +2,7 @@
    enforced bound, commit (shifted key for degree-bounded polynomials), open (one KZG10 proof for the
    challenge-weighted combination), check (accumulate_elems + check_elems); discrete-log view. *)
 From Coq Require Import List Arith NArith Bool.
-From PC Require Import Base.Field Base.Result Base.Poly Schemes.KZG10 Schemes.Marlin.
+From PC Require Import Base.Field Base.Result Base.Poly Base.OrdMap Schemes.KZG10 Schemes.LC Schemes.Marlin.
 Import ListNotations.
 Local Open Scope nat_scope.
 
@@ -137,4 +137,78 @@ Section Sonic.
       let adj := match pf_random_v pf with Some rv => fadd adj (fmul (vk_gamma_g k) rv) | None => adj end in
       Ok (feqb (fsub (fsub lhs (fmul adj (vk_h k))) (fmul (pf_w pf) (vk_beta_h k))) f0, rest)
     end.
+  (* ---------------- batch paths: trait-default batch_open, SonicKZG10::batch_check ---------------- *)
+  Definition s_poly_map (items : list (LPoly * Rand)) : list (N * (LPoly * Rand)) :=
+    of_list N.compare (map (fun it => (lp_label (fst it), it)) items).
+  Fixpoint s_open_groups (ck : SCKey) (pm : list (N * (LPoly * Rand))) (groups : list (N * (F * list N))) (chal : list F)
+    : res (list Proof * list F) :=
+    match groups with
+    | [] => Ok ([], chal)
+    | (_, (pt, labels)) :: t =>
+      do items <- lookup_all pm labels;
+      do r <- s_open ck items pt chal;
+      do rest <- s_open_groups ck pm t (snd r);
+      Ok (fst r :: fst rest, snd rest)
+    end.
+  Definition s_batch_open (ck : SCKey) (items : list (LPoly * Rand)) (qs : list query) (chal : list F) : res (list Proof * list F) :=
+    s_open_groups ck (s_poly_map items) (group_queries qs) chal.
+
+  (* commitments by label: (commitment, degree bound) *)
+  Definition s_comm_map (cs : list (N * (F * option nat))) : list (N * (F * option nat)) := of_list N.compare cs.
+  Fixpoint s_gather (cm : list (N * (F * option nat))) (ev : evals) (pt : F) (labels : list N)
+    : res (list (F * option nat) * list F) :=
+    match labels with
+    | [] => Ok ([], [])
+    | l :: t =>
+      match lookup N.compare l cm with
+      | None => Err EMissingPolynomial
+      | Some c =>
+        match lookup qkey_cmp (l, pt) ev with
+        | None => Err EMissingEvaluation
+        | Some v => do r <- s_gather cm ev pt t; Ok (c :: fst r, v :: snd r)
+        end
+      end
+    end.
+  (* one accumulate_elems call with randomizer rho: adds rho * (sum, adjusted witness, witness) *)
+  Record sbacc := mkSB { sb_lhs : res F; sb_adj : F; sb_wit : F }.
+  Definition s_accumulate (vk : SVKey) (cs : list (F * option nat)) (z : F) (vs : list F) (pf : Proof) (chal : list F)
+             (rho : F) (a : sbacc) : res (sbacc * list F) :=
+    match chal with
+    | [] => Err EOther
+    | c0 :: chal0 =>
+      do r <- s_acc vk cs vs c0 chal0 f0 f0;
+      let '(l, va, rest) := r in
+      let k := svk_vk vk in
+      let adj := fsub (fmul (vk_g k) va) (fmul (pf_w pf) z) in
+      let adj := match pf_random_v pf with Some rv => fadd adj (fmul (vk_gamma_g k) rv) | None => adj end in
+      Ok ({| sb_lhs := match sb_lhs a, l with
+                       | Ok x, Ok y => Ok (fadd x (fmul rho y))
+                       | Ok _, other => other
+                       | other, _ => other
+                       end;
+             sb_adj := fadd (sb_adj a) (fmul rho adj); sb_wit := fadd (sb_wit a) (fmul rho (pf_w pf)) |}, rest)
+    end.
+  Fixpoint s_batch_groups (vk : SVKey) (cm : list (N * (F * option nat))) (ev : evals) (groups : list (N * (F * list N)))
+           (pfs : list Proof) (chal : list F) (rho : F) (vtape : list F) (a : sbacc) (draws : nat)
+    : res (sbacc * list F * nat) :=
+    match groups, pfs with
+    | (_, (pt, labels)) :: t, pf :: pfs' =>
+      do cv <- s_gather cm ev pt labels;
+      do r <- s_accumulate vk (fst cv) pt (snd cv) pf chal rho a;
+      match vtape with
+      | [] => Err EOther
+      | rho' :: vtape' => s_batch_groups vk cm ev t pfs' (snd r) rho' vtape' (fst r) (S draws)
+      end
+    | _, _ => Ok (a, chal, draws)
+    end.
+  Definition s_batch_check (vk : SVKey) (cs : list (N * (F * option nat))) (qs : list query) (ev : evals)
+             (pfs : list Proof) (chal vtape : list F) : res (bool * list F * nat) :=
+    let groups := group_queries qs in
+    if negb (Nat.eqb (length pfs) (length groups)) then Panic else
+    do r <- s_batch_groups vk (s_comm_map cs) (evals_map ev) groups pfs chal f1 vtape
+                           {| sb_lhs := Ok f0; sb_adj := f0; sb_wit := f0 |} O;
+    let '(a, rest, draws) := r in
+    do lhs <- sb_lhs a;
+    let k := svk_vk vk in
+    Ok (feqb (fsub (fsub lhs (fmul (sb_adj a) (vk_h k))) (fmul (sb_wit a) (vk_beta_h k))) f0, rest, draws).
 End Sonic.
